@@ -17,10 +17,18 @@
 //!                with flag A.  The combined status (max over the columns) is Update iff A=1 (and nothing stronger
 //!                is pending), else Rescore - which is what the model's single EEdit computes.
 //!   restart C
-//!   tick Z       begin Nucleo::tick on the UI thread (timeout 0 if Z=0 else 10 s); parks at tick.begin
+//!   tick Z [as]  begin Nucleo::tick on the UI thread (timeout 0 if Z=0 else 10 s); parks at tick.begin.  With `as` the UI
+//!                thread also parks at tick.after_spawn (directly after ThreadPool::spawn; the protocol model has no state
+//!                change there), otherwise it runs through that site
 //!   ut           step the UI thread to its next yield point (or completion)
+//!   utb          step the UI thread INTO a blocking lock acquisition: it is released from its yield point and is expected not
+//!                to reach another one (observation `B`: no new park within 80 ms - the worker lock is held by the run);
+//!                if it does park / return, that state is the observation (the implementation did not block)
+//!   utw          the UI thread that blocked at `utb` must have arrived at its next yield point (it got the lock when a `run`
+//!                step released it; that `run` step waits for it): prints where it is parked, `B` if it is still blocked
 //!   run          step the background run to its next yield point (or to the release of the lock)
-//!   obs          print snapshot / counters
+//!   obs          print snapshot / counters: pattern, item count, matches, matched item data, active_injectors, notify
+//!                count, unchecked reads of uninitialised entries, g = Snapshot::get_item(i).data for i in 0..8 (`-` = None)
 //! `hn nucleo-table` prints the score table (pattern pool x text pool) the model needs.
 use crate::sched::{self, Foreign, St};
 use nucleo::pattern::{CaseMatching, Normalization};
@@ -31,8 +39,14 @@ use std::sync::atomic::{AtomicUsize, Ordering};
 use std::sync::Arc;
 
 pub const NCOLS: usize = 2;
+/// `obs` reports Snapshot::get_item(i) for i < GET_ITEMS (g=...: the item's data, `-` for None)
+pub const GET_ITEMS: u32 = 8;
+/// `utb`: how long the UI thread gets to reach another yield point before it counts as blocked
+const BLOCK_WAIT_MS: u64 = 80;
 /// pattern pool: (column 0 text, column 1 text); ids 0..=6 are the one-column pool of the earlier harness
-pub const PATTERNS: [(&str, &str); 14] = [
+/// ids 14..=17 consist only of NEGATED atoms: every item they match has score 0, the score of the placeholders
+/// the worker sorts behind the real matches and truncates
+pub const PATTERNS: [(&str, &str); 18] = [
     ("", ""),
     ("a", ""),
     ("ab", ""),
@@ -47,6 +61,10 @@ pub const PATTERNS: [(&str, &str); 14] = [
     ("b", "p"),
     ("ab", "p"),
     ("a", "q"),
+    ("!a", ""),
+    ("!b", ""),
+    ("!ab", ""),
+    ("", "!p"),
 ];
 /// text pool: (column 0, column 1); entry k + 12 has the column 0 text of entry k (same score and column 0
 /// length under a pattern whose column 1 is empty) and a column 1 text of a different length
@@ -155,6 +173,7 @@ fn site_id(s: &str) -> &'static str {
         "tick.try_lock_failed" => "try_failed",
         "tick.after_rearm" => "after_rearm",
         "tick.before_spawn" => "before_spawn",
+        "tick.after_spawn" => "after_spawn",
         "run.start" => "start",
         "run.before_sort" => "before_sort",
         "run.before_notify_read" => "before_notify_read",
@@ -213,6 +232,8 @@ pub fn run(file: &str) {
         let mut injectors: HashMap<u64, Arc<Injector<u64>>> = HashMap::new();
         let mut threads: HashMap<u64, sched::Thread> = HashMap::new();
         let mut ui: Option<sched::Thread> = None;
+        // the UI thread was stepped into the blocking lock by `utb` and has not come out yet
+        let mut ui_blocked = false;
         let mut obs: Vec<String> = Vec::new();
         for ev in line.split(';') {
             let p: Vec<&str> = ev.trim().split(' ').collect();
@@ -332,7 +353,8 @@ pub fn run(file: &str) {
                     if ui.is_none() {
                         let timeout: u64 = if p[1] == "0" { 0 } else { 10_000 };
                         let ptr = Ptr(nptr);
-                        let th = sched::spawn(vec![], move || {
+                        let ign = if p.get(2) == Some(&"as") { vec![] } else { vec!["tick.after_spawn"] };
+                        let th = sched::spawn(ign, move || {
                             let ptr = ptr;
                             let st = unsafe { (*ptr.0).tick(timeout) };
                             format!("T{}{}", st.changed as u8, st.running as u8)
@@ -363,6 +385,41 @@ pub fn run(file: &str) {
                         }
                     }
                 }
+                "utb" | "utw" => {
+                    norun = false;
+                    let mut done = false;
+                    match &ui {
+                        Some(th) => {
+                            let s = if p[0] == "utb" {
+                                th.go();
+                                th.wait_settled(BLOCK_WAIT_MS)
+                            } else {
+                                th.wait_settled(if ui_blocked { 2500 } else { 0 })
+                            };
+                            match s {
+                                St::Parked(..) => {
+                                    ui_blocked = false;
+                                    obs.push(show(&s));
+                                }
+                                St::Finished(_) => {
+                                    ui_blocked = false;
+                                    done = true;
+                                    obs.push(show(&s));
+                                }
+                                _ => {
+                                    ui_blocked = true;
+                                    obs.push("B".into());
+                                }
+                            }
+                        }
+                        None => obs.push("-".into()),
+                    }
+                    if done {
+                        if let Some(mut th) = ui.take() {
+                            th.finish();
+                        }
+                    }
+                }
                 "run" => {
                     // the run must be parked (wait a little for the pool thread to reach run.start)
                     match runner.wait_parked(if norun { 20 } else { 2500 }) {
@@ -375,6 +432,16 @@ pub fn run(file: &str) {
                                 obs.push("Yidle".into());
                             } else {
                                 let st = runner.wait_parked(2500);
+                                // the run has released the worker lock: a UI thread blocked on it (`utb`) acquires it now and
+                                // goes on to its next yield point - wait for that, so that what follows is deterministic
+                                if ui_blocked {
+                                    if let (St::Parked("run.unlocked", _), Some(th)) = (&st, &ui) {
+                                        match th.wait_settled(2500) {
+                                            St::Parked(..) | St::Finished(_) => ui_blocked = false,
+                                            _ => {}
+                                        }
+                                    }
+                                }
                                 let mut o = show(&st);
                                 // at the post-unlock sites report whether the worker lock is held (by a later tick or a queued run;
                                 // never by this run) - compared with the model's lock state
@@ -402,25 +469,35 @@ pub fn run(file: &str) {
                         let ms: Vec<String> = snap.matches().iter().map(|m| format!("{}:{}", m.score, m.idx)).collect();
                         let mut data = Vec::new();
                         for n in 0..snap.matched_item_count() {
+                            // a placeholder (idx == u32::MAX) left in the matches cannot be read (boxcar panics on that index)
+                            if snap.matches()[n as usize].idx == u32::MAX {
+                                data.push("PH".to_string());
+                                continue;
+                            }
                             // reads the item through the unchecked accessor, as a UI would
-                            let it = snap.get_matched_item(n).unwrap();
-                            data.push(format!("{}", it.data));
+                            match snap.get_matched_item(n) {
+                                Some(it) => data.push(format!("{}", it.data)),
+                                None => data.push("NONE".to_string()),
+                            }
                         }
                         let ptxt = |c: usize| -> String {
-                            let v: Vec<String> = snap.pattern().column_pattern(c).atoms.iter().map(|a| a.needle_text().to_string()).collect();
+                            let v: Vec<String> = snap.pattern().column_pattern(c).atoms.iter().map(|a| format!("{}{}", if a.negative { "!" } else { "" }, a.needle_text())).collect();
                             v.join(" ")
                         };
                         let (p0, p1) = (ptxt(0), ptxt(1));
                         let pid = PATTERNS.iter().position(|t| t.0 == p0 && t.1 == p1).map_or(-1, |x| x as i64);
+                        // index based access: what Snapshot::get_item hands out for the first indices of the snapshot's stream
+                        let gi: Vec<String> = (0..GET_ITEMS).map(|i| snap.get_item(i).map_or("-".to_string(), |it| format!("{}", it.data))).collect();
                         obs.push(format!(
-                            "O p={} c={} m={} d={} inj={} n={} u={}",
+                            "O p={} c={} m={} d={} inj={} n={} u={} g={}",
                             pid,
                             snap.item_count(),
                             if ms.is_empty() { "-".to_string() } else { ms.join(",") },
                             if data.is_empty() { "-".to_string() } else { data.join(",") },
                             nucleo.active_injectors(),
                             notifies.load(Ordering::SeqCst),
-                            nucleo::verif::take_uninit_reads()
+                            nucleo::verif::take_uninit_reads(),
+                            gi.join(",")
                         ));
                     }
                 }
